@@ -92,7 +92,7 @@ func Ltoi(shape Shape, strides []int, coords ...int) (at int, err error) {
 
 		size := shape[i]
 
-		if coord >= size {
+		if coord < 0 || coord >= size {
 			err = errors.Errorf(indexOOBAxis, i, coord, size)
 			return
 		}
